@@ -320,6 +320,9 @@ func runFree(in sx.Tree) sx.Tree {
 			r.slow[k.Int()] = true
 		}
 	}
+	if in.Len() >= 7 && in.At(6).Len() >= 1 {
+		r.failPct = uint64(in.At(6).At(0).Int())
+	}
 	done := make(chan struct{})
 	go func() {
 		ex.Execute()
